@@ -193,6 +193,38 @@ example :
       .ok ([0x40, 0x40, 0x61, 0x62, 0x63, 0x64], [0x40, 0x40, 0x61, 0x62, 0x63, 0x64]) := by
   decide
 
+/-- `ingest_line` with invalid UTF-8 (model input: the lossy string): the line is ingested like any
+other line. Fails on the older form of the `Err(_)` arm (read from the source). -/
+theorem ingest_invalid_like_any_line (U : Uni) (maxLen : Nat) (sym lossy : Bytes) :
+    Ingest.ingestInvalid U maxLen sym lossy = Ingest.ingest U maxLen sym lossy := by
+  have h : Generated.invalidUtf8LikeAnyLine = true := by decide
+  simp [Ingest.ingestInvalid, h]
+
+/-- With `--max-line-length 0` (no limit) nothing is lost: `raw_line` is the lossy line itself and
+`line` its stripped form (for a line without `\r`; with one, `ingest_cr_only_zero_width_tail` applies). -/
+theorem ingest_invalid_no_limit (U : Uni) (sym lossy : Bytes) (hcr : (0x0d : UInt8) ∉ lossy) :
+    Ingest.ingestInvalid U 0 sym lossy = (strip lossy).map fun l => (lossy, l) := by
+  rw [ingest_invalid_like_any_line]
+  exact ingest_identity U 0 sym lossy hcr (Or.inl rfl)
+
+/-- With a limit, a line that is cut is cut by `truncate_str` (which keeps every escape sequence and
+appends the truncation symbol), never by a byte count: `raw_line = truncate_str(line', limit, symbol)`
+where `line'` is the line after the `\r` step, and `line` is its stripped form. -/
+theorem ingest_truncated_by_truncate_str (U : Uni) (maxLen : Nat) (sym raw r1 : Bytes)
+    (h1 : Ingest.removeCr U raw = .ok r1) (ht : Ingest.truncates maxLen r1 = true) :
+    Ingest.ingest U maxLen sym raw =
+      (truncate U r1 maxLen sym (some [0x20])).bind fun r2 => (strip r2).map fun l => (r2, l) := by
+  simp only [Ingest.ingest, h1, ht, if_true]
+  cases truncate U r1 maxLen sym (some [0x20]) with
+  | error m => rfl
+  | ok r2 => cases hs : strip r2 <;> simp [Except.bind, Except.map, hs]
+
+/-- `a ÿ b` (lossy: `a U+FFFD b`) at limit 0 and at limit 2 (cut, with the symbol `.`). -/
+example :
+    Ingest.ingestInvalid demoUni 0 [0x2e] [0x61, 0xef, 0xbf, 0xbd, 0x62] = .ok ([0x61, 0xef, 0xbf, 0xbd, 0x62], [0x61, 0xef, 0xbf, 0xbd, 0x62]) ∧
+    Ingest.ingestInvalid demoUni 2 [0x2e] [0x61, 0xef, 0xbf, 0xbd, 0x62] = .ok ([0x61, 0x2e], [0x61, 0x2e]) := by
+  decide
+
 end IngestLine
 
 end C04
